@@ -170,6 +170,9 @@ def bounded_cases(tier, seed):
         cases.append(dict(family="cross", model="MCARotator", n=40, p=5, k=3, alpha=None, use_pca=False, power=1 + i % 2, cplx=False, refit=2, keep=True))
     for pca in (False, True):
         cases.append(dict(family="multi", model="multi.CCA", n=40, p=5, pca=pca, keep=True))
+    # larger views: the inner PCA of multi.CCA then runs with its default (truncated, randomised) settings
+    cases.append(dict(family="multi", model="multi.CCA", n=150, p=48, pca=True, keep=True))
+    cases.append(dict(family="multi", model="multi.CCA", n=60, p=80, pca=True, keep=False))
     for i, c in enumerate(cases):
         c["seed"] = int(seed) * 1000 + i
     if tier == "quick":
@@ -198,7 +201,7 @@ def replay(payload):
 def run(tier, seed):
     from props import C01, C09, C11
     res = Result("C04")
-    res.functions = ["xeofs.cross.base_model_cross_set:BaseModelCrossSet public methods (composition of preprocessor/PCA/whitener per field)", "xeofs.single.eof:EOF._transform_algorithm", "xeofs.cross.cpcca:CPCCA._transform_algorithm",
+    res.functions = ["xeofs.cross.cpcca_rotator:CPCCARotator._fit_algorithm/_sort_by_variance/transform/_compute_rot_mat_inv_trans (+ inherited CPCCA._inverse_transform_algorithm)", "xeofs.cross.base_model_cross_set:BaseModelCrossSet public methods (composition of preprocessor/PCA/whitener per field)", "xeofs.single.eof:EOF._transform_algorithm", "xeofs.cross.cpcca:CPCCA._transform_algorithm",
                      "xeofs.single.eof_rotator:EOFRotator._transform_algorithm", "EOFRotator._compute_rot_mat_inv_trans",
                      "EOFRotator._sort_by_variance", "xeofs.single.eof:EOF._fit_algorithm", "xeofs.cross.cpcca:CPCCA._fit_algorithm",
                      "EOFRotator._fit_algorithm"]
@@ -210,6 +213,8 @@ def run(tier, seed):
     deductive(res, agg)
     from vf.contracts import crosschain
     crosschain.obligations(agg, ("fit", "transform"))      # cross-set public methods: every field through its own chain, in order
+    from vf.contracts import crossrot
+    crossrot.obligations(res, agg, ("C04",))      # the real CPCCARotator traced against its callees' contracts
     agg.flush()
     run_bounded(res, tier, seed)
     return res
